@@ -102,7 +102,23 @@ def run(ck, prog):
                 continue
             table = loop_transition_table(prog, b, h, blocks, eats[0])
             if table is None:
-                continue    # not a depth-counting loop (e.g. next_not_trivia)
+                # no depth counter. A loop that decides on a directive kind (#endif / #else) is still a skip loop, and
+                # without a counter a nested conditional's #endif ends it; a loop that tests no directive
+                # (next_not_trivia) is not a skip loop.
+                names = {v["name"]: v["discr"] for v in prog.adts[TOKENKIND]["variants"]}
+                directive = False
+                for x in blocks:
+                    t = b.term(x)
+                    if t["k"] == "switch" and paths.switch_cond(b, prog, x).kind == "discr":
+                        if {a[0] for a in t["arms"]} & {names.get("Endif"), names.get("Else")}:
+                            directive = True
+                if directive:
+                    nloops += 1
+                    ck.ob("R15.4", "skip-loop:%s:no-depth-counter" % p.rsplit("::", 1)[-1], False,
+                          msg="%s skips text up to a #endif/#else without counting nested #ifdef/#ifndef: the #endif of a "
+                              "conditional nested in the skipped text ends the skip early and the rest is delivered [%s]"
+                              % (p, b.where(h)))
+                continue
             nloops += 1
             from ..callgraph import callgraph
             cg = callgraph(prog)
@@ -183,6 +199,7 @@ def run(ck, prog):
     ck.ob("R15.6", "lookup-by-name", ok, "process_if looks the macro up by the text of the token it just read",
           msg="process_if no longer consults the macro set with the directive's own macro name")
     enabled_unterminated(ck, prog)
+    open_counter_table(ck, prog)
 
 
 def enabled_unterminated(ck, prog):
@@ -237,6 +254,142 @@ def enabled_unterminated(ck, prog):
             found = True
     ck.ob("R15.7", "eof-consults-state", found, "next_token has a path on Eof that returns self.error(..)",
           msg="next_token hands Eof on unconditionally: an open conditional is never reported at the end of the file")
+
+
+def counter_effects(prog, fn, memo, stack=()):
+    """Net effect of one call of PreProcessor method `fn` on the integer fields of the preprocessor, per way the call can
+    end: set of (token kind that ended a skip inside it | None, net change | '=k' | '?'). Read off the MIR by summing, on
+    every path, the `self.field = self.field +/- c` updates (saturating or not) and the effects of the PreProcessor
+    methods it calls; a loop iteration must leave the counter unchanged (else '?')."""
+    if fn in memo:
+        return memo[fn]
+    if fn in stack:
+        return {(None, "?", "other")}
+    b = prog.body(fn)
+    if b is None:
+        return {(None, 0, "other")}
+    tk = {v["discr"]: v["name"] for v in prog.adts[TOKENKIND]["variants"]}
+    skipper = any(any(b.term(i)["k"] == "call" and (b.term(i)["f"].get("decl") or "") == TS + "eat" for i in blocks)
+                  and any(b.term(i)["k"] == "switch" for i in blocks) and
+                  any({a[0] for a in b.term(i)["arms"]} & {d for d, n in tk.items() if n in ("Endif", "Else")}
+                      for i in blocks if b.term(i)["k"] == "switch")
+                  for h, blocks in cfg.loops(b))
+
+    def items_of(path):
+        out = []
+        val = {}            # local -> delta relative to the field's value when it was read
+        for e in path.events:
+            if e[0] == "assign":
+                a, rv = e[2]["a"], e[2]["rv"]
+                isfield = a["l"] == 1 and len(a["p"]) == 2 and a["p"][0] == "*" and isinstance(a["p"][1], dict) and \
+                    re.match(r"[ui](8|16|32|64|size)$", a["p"][1].get("t", ""))
+
+                def src(op):
+                    if not isinstance(op, dict):
+                        return None
+                    for k in ("copy", "move"):
+                        if k in op:
+                            pl = op[k]
+                            if pl["l"] == 1 and len(pl["p"]) == 2 and pl["p"][0] == "*" and isinstance(pl["p"][1], dict):
+                                return 0
+                            if pl["l"] in val and (not pl["p"] or (len(pl["p"]) == 1 and isinstance(pl["p"][0], dict) and pl["p"][0].get("f") == 0)):
+                                return val[pl["l"]]
+                    return None
+                if isfield:
+                    c = op_const(rv.get("use")) if isinstance(rv, dict) and "use" in rv else None
+                    d = src(rv.get("use")) if isinstance(rv, dict) and "use" in rv else None
+                    if c is not None and "int" in c:
+                        out.append(("set", c["int"]))
+                    elif d is not None:
+                        out.append(("net", d))
+                    else:
+                        out.append(("net", "?"))
+                elif not a["p"] and isinstance(rv, dict):
+                    if "use" in rv and src(rv["use"]) is not None:
+                        val[a["l"]] = src(rv["use"])
+                    elif rv.get("binop") in ("AddWithOverflow", "Add", "SubWithOverflow", "Sub"):
+                        d = src(rv["a"])
+                        c = op_const(rv["b"])
+                        if d is not None and c is not None and "int" in c:
+                            val[a["l"]] = d + (c["int"] if rv["binop"].startswith("Add") else -c["int"])
+                        else:
+                            val.pop(a["l"], None)
+                    else:
+                        val.pop(a["l"], None)
+            elif e[0] == "call":
+                t = e[2]
+                c = Body.callee(t) or ""
+                m = re.search(r"::(saturating_sub|saturating_add|wrapping_sub|wrapping_add)$", c)
+                if m and not t["dest"]["p"]:
+                    a0 = t["args"][0]
+                    d = None
+                    for k in ("copy", "move"):
+                        if k in a0 and a0[k]["l"] in val and not a0[k]["p"]:
+                            d = val[a0[k]["l"]]
+                    cst = op_const(t["args"][1]) if len(t["args"]) > 1 else None
+                    if d is not None and cst is not None and "int" in cst:
+                        val[t["dest"]["l"]] = d + (cst["int"] if "add" in m.group(1) else -cst["int"])
+                elif c.startswith(PP) and c != fn:
+                    out.append(("call", c))
+            elif skipper and e[0] == "branch" and e[2].kind == "discr" and not isinstance(e[3], tuple) and e[3] in tk:
+                out.append(("tok", tk[e[3]]))
+        return out
+
+    res = set()
+    for path in paths.enum_paths(b, prog):
+        if path.end == "loop":
+            its = items_of(path)
+            # an iteration that goes round again must not change the counter
+            if any(x[0] in ("net", "set") and x[1] not in (0,) for x in its if x[0] != "tok"):
+                pass    # effects before the loop are on the same prefix; checked through the return paths
+            continue
+        if path.end != "return":
+            continue
+        combos = [(None, 0)]
+        for it in items_of(path):
+            nxt = []
+            for (lab, net) in combos:
+                if it[0] == "tok":
+                    nxt.append((lab if lab is not None else it[1], net))
+                elif it[0] == "net":
+                    nxt.append((lab, "?" if (net == "?" or it[1] == "?") else (net + it[1] if not isinstance(net, str) else net)))
+                elif it[0] == "set":
+                    nxt.append((lab, "=%d" % it[1]))
+                else:
+                    for (l2, n2, _rk) in counter_effects(prog, it[1], memo, stack + (fn,)):
+                        if isinstance(n2, str) or isinstance(net, str):
+                            nn = n2 if isinstance(n2, str) else net
+                        else:
+                            nn = net + n2
+                        nxt.append((lab if lab is not None else l2, nn))
+            combos = nxt
+        d = paths.describe_result(prog, path.ret)
+        rk = d[2] if d[0] == "variant" else ("Error" if d[0] == "call" and str(d[1]).endswith("::error") else "other")
+        res |= {(lab, net, rk) for (lab, net) in combos}
+    memo[fn] = res
+    return res
+
+
+def open_counter_table(ck, prog):
+    """R15.8: bookkeeping of the open-conditional counter, as a table of net effects per directive handler and per way
+    its skip ends, against the reference: entering a delivered branch +1, leaving it -1, a skipped conditional 0."""
+    ck.rule("R15.8", "the counter of open conditionals changes by the reference amount in every directive handler")
+    memo = {}
+    # (handler, token that ended the skip inside it | None = no skip, delivered) -> reference net change
+    want = [("process_if", None, {1}), ("process_if", "Else", {1}), ("process_if", "Endif", {0}),
+            ("process_else", "Endif", {-1}), ("process_else", "Else", {0}),
+            ("process_endif", None, {-1})]
+    n = 0
+    for fn, lab, nets in want:
+        eff = counter_effects(prog, PP + fn, memo)
+        g = {net for (l, net, rk) in eff if l == lab and rk != "Error"}
+        n += 1
+        ck.ob("R15.8", "%s:%s" % (fn, lab or "delivered"), bool(g) and g <= nets,
+              "%s %s changes the counter by %s" % (fn, ("with its skip ending at " + lab) if lab else "letting the text through / returning directly", sorted(map(str, g))),
+              msg="PreProcessor::%s, %s, changes the open-conditional counter by %s; the reference is %s (a conditional closed "
+                  "twice hides an unterminated outer conditional; one never closed reports a terminated file)"
+                  % (fn, ("when its skip ends at " + lab) if lab else "when it returns without skipping", sorted(map(str, g)) or "nothing", sorted(nets)))
+    ck.floor("R15.8", "counter table rows", n, 6)
 
 
 def local_flows_to_return(b, l):
